@@ -176,6 +176,15 @@ func FamWire[T any](c Codec[T], seed int64) WireRecord {
 	add(SysCall{Tag: 808, From: "A", Method: "Sub.Deep.Ping", Ret: canon(v8), Err: errText(e8), Done: true})
 	v9, e9 := p.rb.EchoPtr(ctx, 809, nil)
 	add(SysCall{Tag: 809, From: "B", Method: "EchoPtr", Ret: canon(v9), Err: errText(e9), Done: true})
+	// zero values are values: 0, "", a zero struct are encoded as such, not as null
+	v10, e10 := p.ra.EchoInt(ctx, 810, 0)
+	add(SysCall{Tag: 810, From: "A", Method: "EchoInt", Arg: "0", Ret: canon(v10), Err: errText(e10), Done: true})
+	v11, e11 := p.rb.EchoStr(ctx, 811, "")
+	add(SysCall{Tag: 811, From: "B", Method: "EchoStr", Arg: `""`, Ret: canon(v11), Err: errText(e11), Done: true})
+	v12, e12 := p.ra.FailVal(ctx, 812, 0, "zero with error")
+	add(SysCall{Tag: 812, From: "A", Method: "FailVal", Ret: canon(v12), Err: errText(e12), Done: true})
+	v13, e13 := p.rb.EchoStruct(ctx, 813, Rec{})
+	add(SysCall{Tag: 813, From: "B", Method: "EchoStruct", Ret: canon(v13), Err: errText(e13), Done: true})
 
 	for _, q := range []struct {
 		name  string
@@ -226,6 +235,8 @@ func FamForeign(seed int64) WireRecord {
 	send(904, `{"call":"c4","function":"Fail","args":[904,"nope"]}`, "error result")
 	send(905, `{"call":"c5","function":"Sub.Deep.Ping","args":[905]}`, "nested name")
 	send(906, `{"call":"c6","function":"FailVal","args":[906,3,"<nil>"],"extra":true}`, "unknown extra key")
+	send(907, `{"call":"c7","function":"EchoInt","args":[907,0]}`, "zero result")
+	send(908, `{"call":"c8","function":"EchoStr","args":[908,""]}`, "empty string result")
 	cancel()
 	reqIn.Close(errors.New("closed"))
 	resIn.Close(errors.New("closed"))
@@ -243,17 +254,20 @@ func FamForeign(seed int64) WireRecord {
 	enc, dec := c.NewEncoder(out), c.NewDecoder(in)
 	go func() { errc2 <- node2.Reg.LinkStream(ctx2, enc, dec, c.Marshal, c.Unmarshal, nil) }()
 	outDec := json.NewDecoder(out)
+	outCh := make(chan string, 16)
+	go func() {
+		for {
+			var m map[string]any
+			if err := outDec.Decode(&m); err != nil {
+				return
+			}
+			outCh <- canon(m)
+		}
+	}()
 	sendS := func(tag int, frame string, what string) {
 		in.Write([]byte(frame))
-		got := make(chan string, 1)
-		go func() {
-			var m map[string]any
-			if err := outDec.Decode(&m); err == nil {
-				got <- canon(m)
-			}
-		}()
 		select {
-		case f := <-got:
+		case f := <-outCh:
 			rec.Foreign = append(rec.Foreign, SysCall{Tag: tag, Method: what, Arg: frame, Ret: f, Done: true})
 		case err := <-errc2:
 			rec.Foreign = append(rec.Foreign, SysCall{Tag: tag, Method: what, Arg: frame, Err: "link ended: " + errText(err), Done: true})
@@ -262,9 +276,25 @@ func FamForeign(seed int64) WireRecord {
 			rec.Foreign = append(rec.Foreign, SysCall{Tag: tag, Method: what, Arg: frame, Err: "no answer"})
 		}
 	}
+	// a frame that must not be answered (it carries only a response, for a call nobody made)
+	sendNone := func(tag int, frame string, what string) {
+		in.Write([]byte(frame))
+		select {
+		case f := <-outCh:
+			rec.Foreign = append(rec.Foreign, SysCall{Tag: tag, Method: what, Arg: frame, Ret: f, Extra: "none-expected", Done: true})
+		case <-time.After(150 * time.Millisecond):
+			rec.Foreign = append(rec.Foreign, SysCall{Tag: tag, Method: what, Arg: frame, Ret: "", Extra: "none-expected", Done: true})
+		}
+	}
 	sendS(911, `{"request":{"call":"s1","function":"EchoInt","args":[911,6]},"response":null}`+"\n", "envelope with null response")
 	sendS(912, `{"request":{"call":"s2","function":"EchoStr","args":[912,"x"]}}`, "envelope with absent response")
 	sendS(913, ` {"response":null,"request":{"function":"Zero","call":"s3","args":[]}} `, "permuted envelope")
+	// envelopes that carry only a response between envelopes that carry only a request: nothing of an
+	// earlier frame may be seen again
+	sendNone(914, `{"response":{"call":"nobody","value":1,"err":""}}`, "response-only envelope for an unknown call")
+	sendS(915, `{"request":{"call":"s5","function":"EchoInt","args":[915,7]}}`, "request-only envelope after a response-only one")
+	sendNone(916, `{"response":{"call":"nobody2","value":null,"err":"x"}}`, "response-only envelope for an unknown call")
+	sendS(917, `{"request":{"call":"s7","function":"EchoInt","args":[917,0]}}`, "zero result in an envelope")
 	cancel2()
 	in.Close(errors.New("closed"))
 	out.Close(errors.New("closed"))
